@@ -39,3 +39,16 @@ def roundHE (q : Rat) : Int :=
 
 /-- `np.clip` on integers -/
 def clipI (v lo hi : Int) : Int := if v < lo then lo else if hi < v then hi else v
+
+/-! ### python list primitives used by generated list code -/
+
+/-- `l.index(v)`; `none` = ValueError -/
+def pyIndex (l : List String) (v : String) : Option Nat := l.findIdx? (· == v)
+
+def pyNorm (n : Nat) (i : Int) : Nat := if i < 0 then (i + n).toNat else i.toNat
+
+/-- `l[i]` with python's negative indices (in-range use only) -/
+def pyGet (l : List String) (i : Int) : String := l.getD (pyNorm l.length i) ""
+
+/-- `l[i] = v` -/
+def pySet (l : List String) (i : Int) (v : String) : List String := l.set (pyNorm l.length i) v
